@@ -359,16 +359,19 @@ def pollWriteStream (s : State) (id : Sid) (data : List Nat) : State × R Nat :=
       | .sendClosed | .closed => (s, .ready (.error .writeZero))
       | .opn | .recvClosed => writeOpen s x id data
 
+/-- `can_read` -/
+def canRead (s : State) (id : Sid) : Bool :=
+  match s.get id with
+  | some x => x.st.recvOpen
+  | none => false
+
 /-- the `loop` of `poll_read_stream` -/
 def readStreamLoop : Nat → State → Sid → Nat → State × R (Option (List Nat))
   | 0, s, _, _ => (s, .pending)
   | fuel + 1, s, id, k =>
     if k = s.cfg.maxBuf then (s, .pending)
     else
-      let canRead := match s.get id with
-        | some x => x.st.recvOpen
-        | none => false
-      if !canRead then (s, .ready (.ok none))
+      if !canRead s id then (s, .ready (.ok none))
       else
         match readFrame s (some id) with
         | (s, .pending) => (s, .pending)
